@@ -17,6 +17,19 @@ DEMO[C14a]="cd demo && cargo test --offline"
 DEMO[C15a]="cd demo && cargo test --offline --test c15"
 DEMO[C16a]="cd demo && cargo test --offline --release"
 DEMO[C20a]="cd demo/c20-demo && cargo run --offline --release"
+DEMO[C01b]="cd demo && cargo test --offline --test c01_render_retry"
+DEMO[C05b]="cd demo && cargo test --offline --test c05b_demo"
+DEMO[C06b]="cd demo && cargo test --offline --release"
+DEMO[C07b]="cd demo && cargo test --offline --release"
+DEMO[C08b]="cd demo && cargo run --offline --release"
+DEMO[C10b]="cd demo && cargo test --offline"
+DEMO[C14b]="cd demo && cargo test --offline"
+DEMO[C15b]="cd demo && cargo test --offline"
+DEMO[C16b]="cd demo && cargo test --offline"
+DEMO[C20b]="cd demo && cargo test --offline --release --test c20_failed_frame_callers"
+DEMO[C02b]="cd demo && cargo test --offline"
+DEMO[C11b]="cd demo && cargo test --offline --release"
+DEMO[C13b]="cd demo && cargo test --offline --release"
 for id in "$@"; do
   wt=/tmp/seed/$id
   log=/tmp/seed/confirm_$id.log
